@@ -57,8 +57,19 @@ RULE = ("finite, complete: one case per duplicated item -- 256 opcode rows (norm
         "(constants, predicates, keyboard handlers of both languages, and the CoreRuntime bus observed per direction "
         "x access width at every start offset, keyboard attached vs detached), interrupt and reset vector (constants + "
         "behavioural probes), address-space constants, the 15 PRE prefixes (table vs both cores), and "
-        "disjoint / inside / internal-RAM placement per Binary Ninja view. Non-trivial = an opcode row with "
-        ">= 1 operand, or an item with >= 2 independent copies; distinct = item id.")
+        "disjoint / inside / internal-RAM placement per Binary Ninja view -- as declared (SEGMENTS) and as registered "
+        "by init() through add_auto_segment / add_auto_section for parent files of generated length (one item per view "
+        "x length class: tiny, shorter, one byte short, nominal, one byte long, trailer, landmark = a file-following "
+        "segment would end at another segment's edge or the end of the address space, much longer; the lengths inside "
+        "a class come from the seeded stream). The sub-register layout is additionally read back after generated write "
+        "histories on one register file (one item per family x order class alias-then-whole / whole-then-alias / "
+        "interleaved; declared layout applied to the writes vs Python Registers vs Rust LlamaState; for F also executed "
+        "programs of flag writers and POPU F / POPS F on both cores, with the last whole-register write alone on a "
+        "fresh state as a further copy). The item list is complete; the inputs inside these generated items are a "
+        "seeded sample. Non-trivial = an opcode row with "
+        ">= 1 operand, or an item with >= 2 independent copies (view-init: a length other than the nominal one with "
+        ">= 2 segments registered; write histories: an alias written before a whole-register write that disagrees with "
+        "it, or an alias write that changes the parent; executed programs: both kinds of writer on one state); distinct = item id.")
 
 IMEM_BASE_EXPECTED_LEN = 0x100
 
@@ -76,6 +87,7 @@ class Item:
         self.labels = list(labels)
         self.sample = sample
         self.violations: List[Violation] = []
+        self.counts: Dict[str, int] = {}   # inner generated cases of the item (added to the evidence label counts)
 
     def violate(self, subcheck: str, where: str, symptom: str, detail: str) -> None:
         self.violations.append(Violation(subcheck, where, symptom, {"item": self.id}, detail))
@@ -1092,6 +1104,7 @@ def check_subreg_histories(rust: Any, seed: int, tier: str, forced: Optional[Dic
             it.nontrivial = nontrivial > 0
             it.labels.append(f"subreg-order:nontrivial-histories={'0' if nontrivial == 0 else '>=1'}")
             it.sample["nontrivial_histories"] = nontrivial
+            it.counts = {"subreg-order:histories": len(hists), "subreg-order:histories:nontrivial": nontrivial}
             items.append(it)
     return items
 
@@ -1239,7 +1252,8 @@ def check_flag_programs(py_table: Dict[int, Any], rust: Any, seed: int, tier: st
                 srcs.append(("rust core, the last whole-register write alone on a fresh state", _rs_flag_run(rust, c2, m2, s2)))
             has_alias_before_whole = any(prog[i][1] not in whole_ops and any(prog[j][1] in whole_ops for j in range(i + 1, len(prog)))
                                          for i in range(len(prog)))
-            if has_alias_before_whole or order != "alias-then-whole":
+            kinds = {a[1] in whole_ops for a in prog}
+            if has_alias_before_whole or kinds == {True, False}:   # both kinds of writer on one state
                 nontrivial += 1
             tmp = Item(iid, True, [])
             group_check(tmp, "subregister-layout", srcs, topic="F / FC / FZ after executed writes")
@@ -1252,6 +1266,7 @@ def check_flag_programs(py_table: Dict[int, Any], rust: Any, seed: int, tier: st
                                                f"program {_hex([list(a) for a in prog])} + PUSHU F -> {v.detail}"))
         it.nontrivial = nontrivial > 0
         it.sample["nontrivial_programs"] = nontrivial
+        it.counts = {"subreg-order:programs": len(progs), "subreg-order:programs:nontrivial": nontrivial}
         items.append(it)
     return items
 
@@ -2858,6 +2873,10 @@ def check_view_init(seed: int, tier: str, forced: Optional[Dict[str, Any]] = Non
                            "file_lengths": [hex(x) for x in lens],
                            "registered": [[hex(x) for x in sg] for sg in (obs[0][1]["segments"] if obs else [])]})
 
+                it.counts = {"view-init:init-runs": len(obs),
+                             "view-init:init-runs:nontrivial (length != nominal, >= 2 segments registered)":
+                                 sum(1 for ln, o in obs if ln != nom and len(o["segments"]) >= 2)}
+
                 def bad(subcheck: str, where: str, symptom: str, detail: str) -> None:
                     it.violations.append(Violation(subcheck, where, symptom, dict(case), detail))
 
@@ -3016,6 +3035,7 @@ def run(ctx: Ctx) -> Report:
     for it in collect_items(ctx.seed, ctx.tier):
         rep.case(it.id if it.nontrivial else None, it.labels,
                  it.sample if (it.sample is not None and _want_sample(rep, it)) else None)
+        rep.labels.update(it.counts)
         for v in it.violations:
             rep.violate(v)
     rep.rule = RULE
